@@ -146,6 +146,33 @@ pub fn main(a: &Args) {
                 }
             }
         }
+        // (1b) a document comes back: closed or deleted, then opened again with the same or another text,
+        // and texts that return to an earlier one (the diagnostics repeat)
+        for u in 0..3usize {
+            for closer in ["close", "delete"] {
+                if u == 2 && closer == "delete" { continue; }
+                for (t1, t2) in [("A", "A"), ("A", "B")] {
+                    run(&[m("open", u, t1), m(closer, u, ""), m("open", u, t2)], &[], &[], &[], &mut out);
+                    run(&[m("open", u, "C"), m("change", u, t1), m(closer, u, ""), m("open", u, t2), m("change", u, t1)], &[], &[], &[], &mut out);
+                }
+            }
+            run(&[m("open", u, "A"), m("change", u, "B"), m("change", u, "A"), m("change", u, "A")], &[], &[], &[], &mut out);
+        }
+        // (1c) random protocol-conforming sequential sessions over two texts only, so that states repeat
+        for _ in 0..a.num("random-seq", 25) {
+            let mut open = [false; 3];
+            let mut hist: Vec<Msg> = Vec::new();
+            for _ in 0..rng.range(5, 10) {
+                let u = rng.below(3);
+                let t = ["A", "B"][rng.below(2)];
+                let kind = if !open[u] { "open" } else { kinds[rng.below(kinds.len())] };
+                if u == 2 && (kind == "save" || kind == "delete") { continue; }
+                if kind == "open" { open[u] = true; }
+                if kind == "close" || kind == "delete" { open[u] = false; }
+                hist.push(m(kind, u, t));
+            }
+            run(&hist, &[], &[], &[], &mut out);
+        }
         // (2) batches of two and three messages in flight together, every completion order
         let batch_kinds = ["change", "close", "save", "adduser", "config"];
         let nb = a.num("batches", 40) as usize;
